@@ -116,11 +116,12 @@ def helper_rule(ctx: Ctx, rid: str = "R03.helper") -> None:
         key = name
         ok_paths = 0
         saw_raise = False
+        from ..pathsym import sym_events
         for p in function_paths(f.node):
             facts: set = set()
-            for i, e in enumerate(p.events):
-                if e.kind == "test":
-                    facts |= facts_of(e.node, bool(e.pol))
+            for se in sym_events(p):  # locals substituted: `offset = decoded_address.byte_offset; if offset > 2:` is a test of the field
+                if se.event.kind == "test":
+                    facts |= facts_of(se.node, bool(se.event.pol))
             legal = _legal_offsets(facts)
             if p.term == "raise":
                 exc = p.term_node.exc if isinstance(p.term_node, ast.Raise) else None
@@ -138,9 +139,10 @@ def helper_rule(ctx: Ctx, rid: str = "R03.helper") -> None:
                 r.viol(f"{key}|bound", f.loc(), f"{name} accepts byte offsets {sorted(legal)}, a {name.split('_')[0]} "
                        f"fits in one word only at {sorted(exp)}")
             # mutation after the guard
+            sevs = sym_events(p)
             for i, e in enumerate(p.events):
                 if e.kind == "stmt" and isinstance(e.node, ast.Assign) and any(isinstance(t, ast.Subscript) for t in e.node.targets):
-                    if not any(x.kind == "test" and "byte_offset" in ast.unparse(x.node) for x in p.events[:i]):
+                    if not any(x.event.kind == "test" and "byte_offset" in ast.unparse(x.node) for x in sevs[:i]):
                         r.viol(f"{key}|order", f.loc(e.node), f"{name} mutates the block before checking the offset")
         r.check(saw_raise, key, f.loc(), f"{name} has no path raising ByteOffsetError", {"max_offset": bound})
     # byte helpers need no guard but must index by block_offset / shift by byte_offset*8
@@ -150,7 +152,10 @@ def helper_rule(ctx: Ctx, rid: str = "R03.helper") -> None:
         if f is None:
             raise AnalysisError(f"anchor vanished: {name}")
         # (which lane of the word is extracted / replaced is decided by R03.lane's abstract interpretation)
-        sel = [n for n in ast.walk(f.node) if isinstance(n, ast.Subscript) and isinstance(n.value, ast.Name) and n.value.id == f.params[1]]
+        from ..pathsym import subst as _subst
+        from ..wiring import _single_assigned
+        al = _single_assigned(f.node)  # `index = decoded_address.block_offset`
+        sel = [_subst(n, al) for n in ast.walk(f.node) if isinstance(n, ast.Subscript) and isinstance(n.value, ast.Name) and n.value.id == f.params[1]]
         ok = bool(sel) and all(isinstance(n.slice, ast.Attribute) and n.slice.attr == "block_offset" and isinstance(n.slice.value, ast.Name)
                                and n.slice.value.id == f.params[0] for n in sel)
         r.check(ok, f"{name}|lane", f.loc(), f"{name} no longer selects the word of the block by decoded_address.block_offset")
